@@ -84,7 +84,7 @@ func checkC08(c *Check) {
 	guards := []guard{
 		{"deposit denomination equals the minimum deposit's", func(f []Atom) bool {
 			for _, a := range f {
-				if a.Op == "eq" && ((Sym(a.X) == "*p:msg.Deposit.Denom" && strings.HasSuffix(Sym(a.Y), "BidMinDeposit.Denom")) || (Sym(a.Y) == "*p:msg.Deposit.Denom" && strings.HasSuffix(Sym(a.X), "BidMinDeposit.Denom"))) {
+				if a.Op == "eq" && ((Sym(a.X) == "*p:msg.Deposit.Denom" && onChainMin(Sym(a.Y), "Denom")) || (Sym(a.Y) == "*p:msg.Deposit.Denom" && onChainMin(Sym(a.X), "Denom"))) {
 					return true
 				}
 			}
@@ -92,9 +92,9 @@ func checkC08(c *Check) {
 		}},
 		{"deposit amount at least the minimum", func(f []Atom) bool {
 			return callFact(f, false, "GT", func(a []string) bool {
-				return strings.HasSuffix(a[0], "BidMinDeposit.Amount") && a[1] == "*p:msg.Deposit.Amount"
+				return onChainMin(a[0], "Amount") && a[1] == "*p:msg.Deposit.Amount"
 			}) || callFact(f, false, "LT", func(a []string) bool {
-				return strings.HasSuffix(a[1], "BidMinDeposit.Amount") && a[0] == "*p:msg.Deposit.Amount"
+				return onChainMin(a[1], "Amount") && a[0] == "*p:msg.Deposit.Amount"
 			})
 		}},
 		{"order exists", func(f []Atom) bool { return foundFact(f, "GetOrder", "*p:msg.Order)") }},
@@ -193,6 +193,16 @@ func checkC08(c *Check) {
 	c.Analysed(fnName(mr))
 	c.matcherShape(mr)
 	c.subsetShape()
+	// a revocation takes effect: the audited attributes handed to the matcher are what the audit store holds, so a
+	// successful delete request must have rewritten or removed the record
+	for _, name := range []string{"DeleteProviderAttributes", "CreateOrUpdateProviderAttributes"} {
+		fn := l.Func("x/audit/keeper", "Keeper", name)
+		c.Analysed(fnName(fn))
+		c.requireOnPaths("R2", "audit keeper "+name+": every successful request rewrites or removes the stored attestation", fn, successReturns(fn), func(x ssa.CallInstruction) bool {
+			m := calleeMethod(x)
+			return (m == "Set" || m == "Delete") && strings.Contains(calleeFull(x), "KVStore")
+		}, "the request is acknowledged but the stored attestation is left as it was: revoked attributes keep admitting bids")
+	}
 	c.Floor("R2", 4)
 
 	// ---- R3 update guard
@@ -621,4 +631,10 @@ func (c *Check) subsetShape() {
 		}
 	}
 	c.Ob("R2", "attribute match: positive only for equal key and equal value", ef.Pos(), okEl && nt > 0, "Attribute.SubsetOf answers true without key and value both being equal")
+}
+
+// onChainMin: s is field f of the minimum bid deposit read from the market module's on-chain parameters (not a
+// compile-time default, which governance cannot change).
+func onChainMin(s, f string) bool {
+	return strings.HasSuffix(s, "BidMinDeposit."+f) && strings.Contains(s, "GetParams(")
 }
